@@ -194,6 +194,147 @@ def explore_forms(chunk):
     return agg
 
 
+# ---- literals are values of their own ---------------------------------------
+# (literal text, [mutations of the value held in t])
+LITERALS = [
+    ("'abc'", ["t[0] = 'X'", "t[-1] = 'X'"]),
+    ("[1, 2]", ["t[0] = 9", "append(t, 9)", "delete_at(t, 0)",
+                "insert_at(t, 0, 9)", "remove(t, 1)", "append_all(t, [7])"]),
+    ("<<1, 2>>", ["append(t, 9)", "remove(t, 1)"]),
+    ("<<<'a' => 1>>>", ["t['a'] = 2", "put(t, 'b', 3)", "remove(t, 'a')"]),
+    ("<*m = 1*>", ["t->m = 9", "t->n = 5", "t['m'] = 7"]),
+    ("[[1], 'ab']", ["t[0][0] = 9", "append(t[0], 5)", "t[1][0] = 'X'"]),
+    ("<<<'k' => 'ab', 'l' => [1]>>>", ["t['k'][0] = 'X'",
+                                      "append(t['l'], 2)"]),
+    ("<*m = 'ab', n = [1]*>", ["t->m[0] = 'X'", "append(t->n, 2)"]),
+    ("[<<1>>, <<<1 => [2]>>>]", ["append(t[0], 2)", "append(t[1][1], 3)"]),
+    ("'a' + 'b'", ["t[0] = 'X'"]),
+    ("[x * 2 for x in [1, 2]]", ["t[0] = 9"]),
+]
+# contexts in which the same literal is evaluated again after a value it
+# produced earlier was modified; {L} literal, {M} mutation; the result must
+# be [first rendering, rendering of the later evaluation], both equal
+CONTEXTS = {
+    "function": "def g() {L}; def before = string(g()); def t = g(); {M}; "
+                "[before, string(g())]",
+    "lambda-def": "def g = fn() {L}; def before = string(g()); "
+                  "def t = g(); {M}; [before, string(g())]",
+    "default": "def g(p = {L}) p; def before = string(g()); def t = g(); "
+               "{M}; [before, string(g())]",
+    "loop": "def r = []; for k in [1, 2] do def t = {L}; "
+            "append(r, string(t)); {M}; end; r",
+    "while": "def r = []; def k = 0; while k < 2 do k += 1; def t = {L}; "
+             "append(r, string(t)); {M}; end; r",
+    "comprehension": "def r = [{L} for k in [1, 2]]; "
+                     "def before = string(r[1]); def t = r[0]; {M}; "
+                     "[before, string(r[1])]",
+    "method": "def o = <*get = fn(self) {L}*>; def before = string(o->get()); "
+              "def t = o->get(); {M}; [before, string(o->get())]",
+    "two-interprets": None,      # handled by C10 (session commands)
+}
+
+
+def explore_literals(chunk):
+    """a literal (or another non-mutating expression) evaluated again after
+    the value of an earlier evaluation was modified yields the original
+    value: element/member assignment and the mutators change exactly the
+    targeted container and nothing else"""
+    agg = core.Agg()
+    s = core.Session(secure=True, legacy=True)
+    for lit, muts in chunk:
+        for cname, tpl in CONTEXTS.items():
+            if tpl is None:
+                continue
+            for mut in muts:
+                src = tpl.replace("{L}", lit).replace("{M}", mut)
+                s.reset()
+                o = s.run(src, "literal", fuel=30000)
+                agg.count("steps")
+                agg.cls(("literal", cname, o[0]))
+                ok = o[0] == "value" and o[1] == "list" and \
+                    literal_pair_equal(o[2])
+                if not ok:
+                    agg.violation(
+                        {"what": "literal-changed", "context": cname,
+                         "literal": lit},
+                        {"kind": "literal", "src": src},
+                        "[v, v] (both evaluations render the same)",
+                        list(o), size=len(src))
+        agg.count("cases")
+    return agg
+
+
+def proto_programs():
+    """member assignment through a prototype chain writes to the receiver
+    only: chains of depth 1..3, the member owned by any one ancestor (or by
+    nobody), every assignment form, observed through the receiver, a
+    sibling of the receiver and every ancestor"""
+    forms = {
+        "member": ("leaf->limit = 99", lambda old: 99),
+        "index": ("leaf['limit'] = 98", lambda old: 98),
+        "member+=": ("leaf->limit += 1",
+                     lambda old: None if old is None else old + 1),
+        "method": ("leaf->setlimit(97)", lambda old: 97),
+        "method+=": ("leaf->bump()",
+                     lambda old: None if old is None else old + 1),
+    }
+    for depth in (1, 2, 3):
+        for owner in list(range(depth)) + [None]:
+            for fname, (stmt, newval) in forms.items():
+                if owner is None and fname.endswith("+="):
+                    continue      # NULL + 1: not about aliasing
+                lines = []
+                for lvl in range(depth):
+                    ms = []
+                    if lvl == owner:
+                        ms.append("limit = 10")
+                    if lvl == 0:
+                        ms.append("setlimit = fn(self, v) self->limit = v")
+                        ms.append("bump = fn(self) self->limit += 1")
+                    if lvl > 0:
+                        ms.append("_proto_ = p%d" % (lvl - 1))
+                    lines.append("def p%d = <*%s*>" % (lvl, ", ".join(ms)))
+                top = "p%d" % (depth - 1)
+                lines.append("def leaf = <*_proto_ = %s*>" % top)
+                lines.append("def sibling = <*_proto_ = %s*>" % top)
+                lines.append(stmt)
+                obs = ["leaf->limit", "sibling->limit"] + \
+                    ["p%d->limit" % k for k in range(depth)]
+                src = "; ".join(lines) + "; [" + ", ".join(obs) + "]"
+                old = 10 if owner is not None else None
+                exp = [newval(old), old] + \
+                    [old if (owner is not None and k >= owner) else None
+                     for k in range(depth)]
+                yield fname, depth, owner, src, exp
+
+
+def explore_protos(chunk):
+    agg = core.Agg()
+    s = core.Session(secure=True, legacy=True)
+    for fname, depth, owner, src, exp in proto_programs():
+        s.reset()
+        o = core.outcome_raw(lambda: s.interp.interpret(src, "proto"))
+        agg.count("steps")
+        got = core.from_value(o[1]) if o[0] == "value" else core.show_raw(o)
+        agg.cls(("proto", fname, o[0]))
+        if got != exp:
+            agg.violation({"what": "prototype-write", "form": fname},
+                          {"kind": "proto", "src": src, "_exp": exp},
+                          exp, got, size=len(src))
+        agg.count("cases")
+    return agg
+
+
+def literal_pair_equal(text):
+    """'[<a>, <b>]' rendering of a two-element list of strings"""
+    try:
+        node = core.ckl.parser.parse_script(text, "pair")
+        v = node.evaluate(core.ckl.functions.get_none_environment())
+        return len(v.value) == 2 and v.value[0] == v.value[1]
+    except BaseException:
+        return False
+
+
 def call_with(s, fn, args):
     env = s.env.newEnv()
     env.put("f", fn)
@@ -551,6 +692,20 @@ def explore_alias(chunk):
 
 
 def replay(case, verbose=False):
+    if case["kind"] == "literal":
+        sx = core.Session(secure=True, legacy=True)
+        o = sx.run(case["src"], "literal", fuel=30000)
+        if verbose:
+            print(case["src"], "->", o)
+        return not (o[0] == "value" and o[1] == "list"
+                    and literal_pair_equal(o[2]))
+    if case["kind"] == "proto":
+        sx = core.Session(secure=True, legacy=True)
+        o = core.outcome_raw(lambda: sx.interp.interpret(case["src"], "p"))
+        got = core.from_value(o[1]) if o[0] == "value" else core.show_raw(o)
+        if verbose:
+            print(case["src"], "->", got, "expected", case["_exp"])
+        return got != case["_exp"]
     if case["kind"] == "form":
         a = explore_forms([(case["form"], case["args"][0], "thorough")])
         hit = [v for k, (sz, v) in a.viol.items()
@@ -615,13 +770,17 @@ def main(tier, seed):
         for first in ops:
             jobs.append({"ops": ops, "firsts": [first], "depth": depth})
     agg.merge(core.pmap(explore_alias, jobs))
+    agg.merge(core.pmap(explore_literals, [[x] for x in LITERALS]))
+    agg.merge(core.pmap(explore_protos, [{}]))
     core.finish(
         PID, tier, seed, agg, t0,
         rule=(f"(a) {len(s.funcs)} functions x all argument tuples of arity "
               f"<= 3 from a {len(sweep.POOL)}-value pool with before/after "
               f"snapshots of every argument, and every non-assigning "
               f"syntactic form of the C13 catalogue x pool^holes with "
-              f"snapshots of the operands; (b) alias graph with "
+              f"snapshots of the operands; {len(LITERALS)} literals x "
+              f"{len(CONTEXTS) - 1} re-evaluation contexts x every mutation "
+              f"of an earlier result; (b) alias graph with "
               f"{len(HANDLES)} handles: all sequences of length <= "
               f"{plans[0][1]} over {len(OPNAMES)} operations and of length "
               f"<= {plans[1][1]} over {len(CORE_OPS)} core operations, one "
